@@ -88,7 +88,7 @@ inline void checkSavedFile(const OSnap& o, const std::string& bytes, Sink& out, 
 }
 
 void probe_C03(World& w, const WSnap& s, Sink& out, ProbeStats& st) {
-    if (!completeFrames(s.o)) { st.skipped++; return; }
+    if (!probeWorthy(s.o)) { st.skipped++; return; }
     st.probed++;
     std::string p = w.path("c03.c3d"), what; longerDestination(p, 65536, (char)0xEE);   // the destination exists and is longer than any file these alphabets produce
     Outcome oc = guarded([&] { w.c->write(p); }, &what);
